@@ -390,7 +390,7 @@ def run_case(case: dict) -> Tuple[Optional[str], dict, List[str], Optional[dict]
                         return None, obs, fails, None
                 if ok:
                     if "returned" not in obs["out"] or obs.get("_ret") is not bret:
-                        fails.append("the caller did not receive the function's own return value")
+                        fails.append("[C08,C09] the caller did not receive the function's own return value")
                 elif "invalidReturn" not in obs["out"]:
                     fails.append("the return value is rejected by its validator but no InvalidReturnError was raised")
     # ---- model request (generic-bodied functions only: the model sees what is passed to the function)
@@ -437,8 +437,8 @@ def shard(seed: int, shard_i: int, n: int, opts: dict) -> dict:
         if any(eff_validator(p) for p in c["params"]) and (c["args"] or c["kwargs"]):
             nontrivial.add(h)
         for f in fails:
-            is9 = f.startswith("[C09]") or "f\"[C09]" in f
-            if (opts["pid"] == "C09") != ("[C09]" in f):
+            # the return-value clause is stated by both properties
+            if "[C08,C09]" not in f and (opts["pid"] == "C09") != ("[C09]" in f):
                 continue
             failures.append({"property": opts["pid"], "case": c, "xd": {"args": c["args"], "kwargs": c["kwargs"]}, "what": f, "real": obs})
         if req is not None:
